@@ -319,7 +319,8 @@ C15_KINDS = {0: 'Score', 1: 'Error', 2: 'TestResult', 3: 'TestResults<Score>', 4
              14: 'Score / Error at another integer type [type 0 i8 / 1 u8 / 2 i32 / 3 u64 / 4 i128 / 5 usize, 0 Score / 1 Error, x, y]',
              15: 'totals at another integer type [type, results] -> [Score total, Error total, results..]',
              16: 'comparison of f64 result collections [0 scores / 1 errors / 2 individuals, bit patterns, bit patterns]',
-             17: 'is there a total order (Ord) on TestResult? -> [TestResult is Ord, cmp of a score with an error (2 = none), control: i64 is Ord, cmp 1 2]'}
+             17: 'is there a total order (Ord) on TestResult? -> [TestResult is Ord, cmp of a score with an error (2 = none), control: i64 is Ord, cmp 1 2]',
+             18: 'TestResults collected from an iterator whose size hint is loose or absent [iterator shape 0 filter / 1 from_fn / 2 take_while / 3 chain / 4 filter_map over a longer range / 5 flat_map, results] -> [total, results..]'}
 def c15_describe(inp, obs):
     return '%s on %s  -- observed [lt,le,gt,ge,eq,ne,cmp,partial_cmp] (cmp: -1 less, 0 equal, 1 greater, 2 n/a) or [total, results...]' % (C15_KINDS.get(inp[0]), inp[1:])
 PROPS['C15'] = dict(
@@ -714,6 +715,11 @@ PROPS['C18'] = dict(
 # ---------------------------------------------------------------------------
 # C09
 def c09_describe(inp, obs):
+    if 400 <= inp[0] < 500:
+        return ('BULK step: %s on a population of %d scored individuals (genomes 0..n-1) through a GenomeScorer child maker, child-maker call #%d fails (-1: none); '
+                'observed counts [result, [length afterwards, population afterwards is as it must be (children / old population, every individual scored)], '
+                '[calls, every call saw the old population, DISTINCT (word1, word2) pairs drawn by the calls, children made]]' % (
+                    'serial_next' if inp[0] == 400 else 'par_next (%d rayon threads)' % (inp[0] - 400), inp[1][0], inp[2]))
     return '%s on population %s, child-maker call #%d fails (-1 / >= size: none); observed [result, population afterwards, log of [saw own population, saw old contents, word1, word2, failed?, child|error]]' % (
         ('serial_next' if inp[0] % 100 == 0 else 'par_next (%d rayon threads)' % (inp[0] % 100)) + (' [scored individuals, child maker built through GenomeScorer]' if inp[0] >= 100 else ''), inp[1][:8], inp[2]) + (
         '; then, on the SAME Generation value, the steps [mode (0 serial / threads), failing call]: %s (observation: 4th element = their [result, population, log])' % inp[3] if len(inp) > 3 else '')
@@ -722,12 +728,14 @@ PROPS['C09'] = dict(
     coq_targets=['theories/Props/C09.vo', 'theories/Corr/CorrC09.vo'],
     describe=c09_describe, no_shrink=True,
     nontrivial=lambda i, o: len(i[1]) >= 1,
-    classify=lambda i, o: ('serial' if i[0] % 100 == 0 else 'parallel') + ('/genome-scorer' if i[0] >= 100 else ''),
-    bucket=lambda i, o: ['mode=%s' % (('serial' if i[0] % 100 == 0 else 'par/%d' % (i[0] % 100)) + ('/genome-scorer' if i[0] >= 100 else '')), 'size=%d' % len(i[1]), 'failure=%s' % ('injected' if 0 <= i[2] < len(i[1]) else 'none')],
-    rule='Generation::serial_next and par_next (rayon pools of 1, 2, 3, 4, 8, 16 threads, 6 / 100 repetitions each) over populations (Vec; also BTreeSet whose children collide so that the size changes between the steps of one Generation value, and VecDeque) of size 0, 1, 2, 7, 64 (and 3000 under pools of 8 and 16 threads) with an instrumented child maker that records the address and contents of the population it is shown and two words drawn from the generator it is handed, and fails at a chosen call; failure injected at every call position (sampled for size 64), at a position beyond the last call, and not at all. Judged in coqc: exactly n invocations on success, every invocation saw the generation\'s own, unmodified population, all drawn words pairwise distinct - within a step and across all steps of one Generation value (a failed step does not rewind the randomness) -, the new population is exactly the children (in call order for serial - computed by the model serial_next from the logged per-call behaviour - as a multiset for parallel), on failure the population equals the old one, the error is the failing child\'s, and serial stepping stops right there. Non-trivial: non-empty population.',
+    classify=lambda i, o: ('serial' if i[0] % 100 == 0 else 'parallel') + ('/genome-scorer' if i[0] >= 100 else '') + ('/bulk' if i[0] >= 400 else ''),
+    bucket=lambda i, o: ['mode=%s' % (('serial' if i[0] % 100 == 0 else 'par/%d' % (i[0] % 100)) + ('/genome-scorer' if i[0] >= 100 else '') + ('/bulk' if i[0] >= 400 else '')),
+                         'size=%d' % (i[1][0] if i[0] >= 400 else len(i[1])), 'failure=%s' % ('injected' if 0 <= i[2] < (i[1][0] if i[0] >= 400 else len(i[1])) else 'none')],
+    rule='Generation::serial_next and par_next (rayon pools of 1, 2, 3, 4, 8, 16 threads, 6 / 100 repetitions each) over populations (Vec; also BTreeSet whose children collide so that the size changes between the steps of one Generation value, and VecDeque) of size 0, 1, 2, 7, 64 (and 3000 under pools of 8 and 16 threads) with an instrumented child maker that records the address and contents of the population it is shown and two words drawn from the generator it is handed, and fails at a chosen call; failure injected at every call position (sampled for size 64), at a position beyond the last call, and not at all. Judged in coqc: exactly n invocations on success, every invocation saw the generation\'s own, unmodified population, all drawn words pairwise distinct - within a step and across all steps of one Generation value (a failed step does not rewind the randomness) -, the new population is exactly the children (in call order for serial - computed by the model serial_next from the logged per-call behaviour - as a multiset for parallel), on failure the population equals the old one, the error is the failing child\'s, and serial stepping stops right there. BULK steps: 400 000 (and 50 000 with an injected failure) scored individuals through a GenomeScorer child maker, serial and under pools of 8 / 16 threads; the log is reduced to counts by the harness and judged in coqc: n calls and n children, all calls saw the old population, the (word1, word2) pairs drawn by the calls are pairwise distinct (128 bits each: an honest generator collides with probability < 2^-90, children seeded from a 32-bit space collide about 18 times), the population afterwards is the children / the old population. Non-trivial: non-empty population.',
     trusted=['thread interleavings are SAMPLED, not enumerated; that children cannot mutate the shared population is Rust\'s &P / Sync typing (trusted)',
              'the randomness of Generation is rand::rng() (thread RNG): not seedable, so the judge is relational over the recorded words'],
-    assumptions=['distinctness of 64-bit words drawn by different children stands for "own live randomness" (collision probability negligible)'],
+    assumptions=['distinctness of 64-bit words drawn by different children stands for "own live randomness" (collision probability negligible)',
+                 'bulk steps: the harness, not coqc, reduces the 400 000-entry log to counts (sorting and counting in c09.rs run_bulk is trusted); only three members and the length of the population are compared on each call'],
     level_text='Theorems (Props/C09.v) for an ARBITRARY child-making operator: serial stepping yields as many children as the population had and installs exactly them; on failure the population is exactly the old one; every call is made on the old population and is handed the generator state the previous call left (consecutive disjoint stretches of the stream), and nothing is made after a failure; the parallel relation (independent generator per child, any schedule) gives the same length / atomicity guarantees. The new population is exactly what the calls returned, in call order; the error reported is that of the last call made. For ANY population type (a size and a way to collect the children): exactly size-many children made from the old population are collected, a failure changes nothing, and over several steps of one Generation value every step follows the size the population has at that step (for an ordered set, modelled by sort_dedup - exactly the distinct children, sorted, never more than were made - that size changes from step to step). Tied to the code by an instrumented child maker under serial_next and par_next with failure at every position and several pool sizes.',
     level_note='Trusted: Coq kernel; harness+driver; rayon scheduling and Rust aliasing guarantees (schedules sampled).',
     technique='Coq theorems over the repeat combinator (atomic replace, call chain) + instrumented child-maker correspondence under serial and rayon-parallel stepping',
